@@ -172,6 +172,12 @@ def mutants(spec):
                         else:
                             setconn(s, ["cat", [[own, 1]]])
                         yield own + "_signal", "%s/%s/in_concat" % (depth, kind), s
+                    # -- a slice object owned (and used) by a sub-module of this module
+                    kids = [i2["of"][1] for i2 in m["insts"] if i2["of"][0] == "mod"]
+                    if kids:
+                        s = clone(); setconn(s, ["child_slice", kids[0], w])
+                        s["modules"][kids[0]]["style"] = "proc"
+                        yield "foreign_signal", "%s/%s/slice_object_of_a_submodule" % (depth, kind), s
                     # -- objects the module held once, displaced since by another object of the same name
                     s = clone(); setconn(s, ["evicted", w]); s["modules"][mi]["style"] = "proc"; s["modules"][mi]["late"] = False
                     yield "orphan_signal", "%s/%s/evicted" % (depth, kind), s
